@@ -292,10 +292,15 @@ func ZvC08_S1_MapToCache() {
 	vrt.MapOrderMode(2)
 	for _, i := range idx {
 		it, ok := st.c.items[zvKeys[i]]
+		if !ok {
+			// (it is nil here: do not touch its fields)
+			vrt.Assert(vrt.And(st.has[i], !zvLive(st.exp[i], t1)), "C08/MapToCache/free-keys-stored (MapToCache is one Set per key)")
+			continue
+		}
 		if !st.has[i] {
-			vrt.Assert(vrt.And(ok, it.object == m[zvKeys[i]]), "C08/MapToCache/free-keys-stored")
+			vrt.Assert(it.object == m[zvKeys[i]], "C08/MapToCache/free-keys-stored (MapToCache is one Set per key)")
 		} else {
-			vrt.Assert(vrt.Implies(zvLive(st.exp[i], t1), vrt.And(ok, it.object == st.val[i], it.expiration == st.exp[i])), "C08/MapToCache/live-entries-untouched")
+			vrt.Assert(vrt.Implies(zvLive(st.exp[i], t1), vrt.And(it.object == st.val[i], it.expiration == st.exp[i])), "C08/MapToCache/live-entries-untouched")
 		}
 	}
 }
